@@ -236,13 +236,13 @@ func execCall(vd *vedirect.Vedirect, k scall, o *obs) (res string) {
 		}
 	case "devid":
 		if v, err := vd.GetDeviceId(); err != nil {
-			res = errClass(err)
+			res = errClass(err) + nz(v != 0)
 		} else {
 			res = "n" + strconv.FormatUint(uint64(v), 10)
 		}
 	case "raw":
 		if v, err := vd.VeCommandGet(uint16(k.addr)); err != nil {
-			res = errClass(err)
+			res = errClass(err) + nz(len(v) != 0)
 		} else {
 			res = "h" + hex.EncodeToString(v)
 			if o != nil {
@@ -252,25 +252,25 @@ func execCall(vd *vedirect.Vedirect, k scall, o *obs) (res string) {
 		}
 	case "uint":
 		if v, err := vd.GetUint(uint16(k.addr)); err != nil {
-			res = errClass(err)
+			res = errClass(err) + nz(v != 0)
 		} else {
 			res = "n" + strconv.FormatUint(v, 10)
 		}
 	case "int":
 		if v, err := vd.GetInt(uint16(k.addr)); err != nil {
-			res = errClass(err)
+			res = errClass(err) + nz(v != 0)
 		} else {
 			res = "n" + strconv.FormatInt(v, 10)
 		}
 	case "str":
 		if v, err := vd.GetString(uint16(k.addr)); err != nil {
-			res = errClass(err)
+			res = errClass(err) + nz(v != "")
 		} else {
 			res = "h" + hex.EncodeToString([]byte(v))
 		}
 	case "cmd":
 		if v, err := vd.VeCommand(vedirect.VeCommand(k.cmd), uint16(k.addr)); err != nil {
-			res = errClass(err)
+			res = errClass(err) + nz(len(v) != 0)
 		} else {
 			res = "h" + hex.EncodeToString(v)
 			if o != nil {
@@ -280,6 +280,14 @@ func execCall(vd *vedirect.Vedirect, k scall, o *obs) (res string) {
 		}
 	}
 	return
+}
+
+// nz marks an error that came with a non-zero value (C05: "returns the zero value and an error")
+func nz(nonzero bool) string {
+	if nonzero {
+		return "+NONZERO"
+	}
+	return ""
 }
 
 // lookupPort replays one logged (tx, rx) pair: the harness's own lookup port
